@@ -3,7 +3,7 @@
    encompassing_sector_size / _encompassing_sector_size_np, flip_flop_index_proportion_exceeding;
    processing/discretise.py as used by proportion_exceeding.  The angular difference is the
    kernel regenerated from functions.py (site S1). *)
-From V Require Import lib.Tree gen.Gen_functions.
+From V Require Import lib.Tree gen.Gen_functions gen.Gen_C18_kern.
 Open Scope string_scope.
 
 (* ------------------------------------------------------------------------------------ *)
@@ -184,8 +184,9 @@ Fixpoint thr_monotone (t : list xv) : bool :=
   | a :: r => match r with b :: _ => xge (xsub b a) (XFin 0) && thr_monotone r | [] => true end
   | [] => true
   end.
-Definition exceed (x t : xv) : xv :=
-  xwhere (xnotnull x && xnotnull t) (b2x (xge x (xadd t (xmul (XFin 0) (XFin (-1)))))).
+(* the per-cell comparison of proportion_exceeding, regenerated from processing/discretise.py (site C18.exceed):
+   xwhere (notnull x && notnull t) (b2x (x >= t + 0 * (-1))) on the unchanged source *)
+Definition exceed (x t : xv) : xv := gen_c18_exceed x t.
 Definition discretise_ge (a : larr) (thr : list xv) : larr :=
   {| ldims := ldims a ++ ["threshold"];
      lsize := fun d => if String.eqb d "threshold" then length thr else lsize a d;
